@@ -2235,6 +2235,13 @@ def parse_immediate(imm, line):
     if len(imm) == 0:
         raise AssemblerError('empty immediate value', line)
 
+    try:
+        return parse_immediate_tokens(imm, line)
+    except (IndexError, ValueError):
+        raise AssemblerError('invalid modifier syntax in immediate: "{}"'.format(' '.join(imm)), line)
+
+
+def parse_immediate_tokens(imm, line):
     head = imm[0].lower()
     if head == '%position':
         if imm[1] == '(':
